@@ -29,7 +29,8 @@ RULE = ("same runs as C11 (scenario projects: hidden base of a visible class, hi
         "and constructors, hidden class between a class and its base; plus random Gen projects) under random lists of "
         "--privacy rules (exact names and qnmatch patterns, HIDDEN/PRIVATE/PUBLIC, any order; the same exact name in two or "
         "three rules in both orders, exact-vs-pattern conflicts in both orders, rules for members of hidden containers, "
-        "rules in setup.cfg alone or replaced by the command line) x theme x sidebar depth. The expected privacy of every "
+        "rules in setup.cfg alone or replaced by the command line) x theme x sidebar depth; 4 % of the runs are partial ones "
+        "(--html-subject naming a module or class, often inside a hidden container; oracle only). The expected privacy of every "
         "object comes from the rule list through the Lean Privacy model, not from pydoctor. "
         "Direct oracle, from the facts of the real System only: for every object that is not visible - no file named for "
         "it, no anchor, no link whose address or title is the object, no listing cell showing its qualified name, no "
